@@ -468,7 +468,7 @@ asm_resolve_iteratively = Fn(FA, "resolve_iteratively", slot="resolver", ret="re
     sig_rewrites=[Rewrite("fn resolve_iteratively(", "fn asm_resolve_iteratively(", rule="R6", why="renamed: two functions called resolve_iteratively live in one flattened module")],
     rewrites=[Rewrite("resolve_once(", "asm_resolve_once(", count=2, rule="R6", why="renamed callee (see above)")],
     ensures=[
-        C("value_of_a_strict_stable_pass", "res is Ok && !(res->Ok_0 is Unknown) ==> res->Ok_0 == asm_strict_value(final(query).report) && asm_strict_stable(final(query).report)", ["C09", "C02"]),
+        C("value_of_a_strict_stable_pass", "res is Ok && !(res->Ok_0 is Unknown) ==> res->Ok_0 == asm_strict_value(final(query).report) && asm_strict_stable(final(query).report)", ["C09", "C02", "C17"]),
         C("laid_out_from_the_given_position", "res is Ok && !(res->Ok_0 is Unknown) ==> asm_strict_start(final(query).report) == position_at_start", ["C17"]),
         C("unknown_only_while_guessing", "res is Ok && res->Ok_0 is Unknown && !asm_strict_stable(final(query).report) ==> !ctx.is_last_iteration", ["C02"]),
         C("err_is_loud", "res is Err ==> final(query).report.msgs() > old(query).report.msgs()", ["C03"]),
